@@ -384,6 +384,9 @@ func (c09) Exec(c *core.Case) (out *core.Outcome) {
 				}
 			} else if d := compareObject(res.Resp, top.St, op.Kind == "head"); d != "" {
 				viol("latest-wrong", "op %d: %s of the key does not return its newest version %s (stack %s): %s", i, op.Kind, top.ID, c09Stack(st), d)
+			} else if got := res.Resp.Get("X-Amz-Version-Id"); res.Resp.OK() && top.ID != "" && top.ID != "null" && got != top.ID {
+				// the answer names the version it returns
+				viol("version-id-header", "op %d: %s of the key returns its newest version %s, the x-amz-version-id header says %q", i, op.Kind, top.ID, got)
 			}
 		case "getver":
 			if len(st) == 0 {
@@ -397,6 +400,8 @@ func (c09) Exec(c *core.Case) (out *core.Outcome) {
 				}
 			} else if d := compareObject(res.Resp, v.St, false); d != "" {
 				viol("version-not-retrievable", "op %d: version %s (entry %d of %s) is not retrievable byte-exact with its metadata: %s", i, v.ID, op.Idx%len(st), c09Stack(st), d)
+			} else if got := res.Resp.Get("X-Amz-Version-Id"); res.Resp.OK() && v.ID != "" && v.ID != "null" && got != v.ID {
+				viol("version-id-header", "op %d: GET of version %s answers with the x-amz-version-id header %q", i, v.ID, got)
 			}
 		case "listversions":
 			var all []s3c.VersionEntry
